@@ -25,6 +25,10 @@ import Dawgs.Model.C13Lts
   toidsrace <x> <lo> <n>             -> ok bad=<k> <card> <rle>   (conversions while a writer slides a window over wrapper x)
   caddrace <x> <lo> <n> <g>          -> ok trues=<k> <card> <rle>  (g goroutines CheckedAdd the same n values)
   kindor <x> <y>                     -> <card> <rle> | <obs x> | <obs y>   (graph.KindBitmaps.AddDuplexToKind / ThreadSafeKindBitmap.Or)
+  opprivate <a> <b> <v>              -> true|false <card b> <rle b>   (b.Add(v); is the operand object a's inner provider got for its last
+                                        binary operation with wrapper b unaffected, i.e. was it a private snapshot?)
+  fillrace <op> <a> <b> <base> <m> <rounds>  -> ok bad=<k> <obs a> | <obs b>   (b empty when a.op(b) starts, filled meanwhile; every round must
+                                        yield op(a0, prefix of the fill sequence); a0 and an empty b are restored)
 Any call that can never return (blocked in a mutex) answers `deadlock`.
 Sets are printed run-length encoded: `[0-4999,65536,70000-70010]`. -/
 namespace Driver.C13
@@ -46,6 +50,8 @@ def obs (s : S) : String := s!"{s.length} {rle s}"
 structure St where
   fixed : Bool := liveFixed
   snap : Bool := liveSnapshot
+  /-- for a receiver: name and content (at that moment) of the wrapper operand of its last binary operation -/
+  lastOperand : List (String × String × S) := []
   /-- the implementation panicked in this case: the harness answers `skipped` until the next `reset` -/
   dead : Bool := false
   provs : List (String × Prov) := []
@@ -61,6 +67,9 @@ def parseKind : String → Option (Width × Bool)
   | "b64" => some (.w64, false)
   | "ts32" => some (.w32, true)
   | "ts64" => some (.w64, true)
+  -- a thread-safe wrapper around a harness provider that records the operand object it is handed (same model)
+  | "spy32" => some (.w32, true)
+  | "spy64" => some (.w64, true)
   | _ => none
 
 def parseOp : String → Option BinOp
@@ -213,6 +222,17 @@ def step (st : St) (ts : List String) : St × String :=
       | some (s', n) => (st.put x (refresh { p with set := s' }), s!"ok {obs s'} cadd={n}")
       | none => (st, "bad-op")
     | none => (st, "bad-op")
+  | ["opprivate", a, b, v] => match st.get a, st.get b, v.toNat?, st.lastOperand.lookup a with
+    | some _, some q, some v, some (b', snap) =>
+      if b' != b || !q.wrapped || q.locked || v ≥ limit q.width then (st, "bad-op") else
+      let q' := refresh { q with set := ins v q.set }
+      (st.put b q', s!"{!has snap v} " ++ obs q'.set)
+    | _, _, _, _ => (st, "bad-op")
+  | ["fillrace", o, a, b, _, m, _] => match parseOp o, st.get a, st.get b, m.toNat? with
+    | some _, some p, some q, some m =>
+      if a == b || p.width != q.width || !p.wrapped || !q.wrapped || p.locked || q.locked || m < 1 || m > 100000 then (st, "bad-op") else
+      (st.put b { q with set := [] }, "ok bad=0 " ++ obs p.set ++ " | " ++ obs [])
+    | _, _, _, _ => (st, "bad-op")
   | ["eachcall", x, k, m, y] =>
     let meth : Option NestedM := match m with
       | "remove" => some .remove | "cadd" => some .cadd | "add" => some .add | "contains" => some .contains | _ => none
@@ -273,6 +293,7 @@ def step (st : St) (ts : List String) : St × String :=
         let st' := st.put x p'
         let q' := if x == y then p' else if native then { q with set := operandAfter p.width op p.set q.set } else q
         let st' := if x == y then st' else st'.put y q'
+        let st' := if q.wrapped then { st' with lastOperand := (x, y, (if x == y then p.set else q.set)) :: st'.lastOperand.filter (·.1 != x) } else st'
         (st', "ok " ++ obs p'.set ++ " | " ++ (if q'.wrapped && q'.locked then "deadlock" else obs q'.set))
       | (p', .deadlock) => (st.put x p', "deadlock")
     | _, _, _ => (st, "bad-op")
